@@ -573,6 +573,21 @@ pub fn run(thorough: bool, seed: u64, driver: &str, rep: &mut Report) {
                             }
                         }
                     }
+                    // a device that opens but refuses data (a full disk): `to_file` reports the failure, it never answers Ok
+                    if std::path::Path::new("/dev/full").exists() {
+                        for n in [2usize, 5, 40] {
+                            let taxa: Vec<String> = (0..n).map(|i| format!("s{i}")).collect();
+                            let cells: Vec<f64> = (0..tri(n)).map(|i| 0.5 * (i as f64 + 1.0)).collect();
+                            let m = DistanceMatrix::new(taxa, &cells);
+                            for square in [true, false] {
+                                rep.count("corpus:full-device");
+                                let mm = m.clone();
+                                if let Ok(Ok(())) = guarded(AssertUnwindSafe(|| mm.to_file(std::path::Path::new("/dev/full"), square).map_err(|_| ()))) {
+                                    rep.oracle("io-error", "to_file-on-a-full-device-reported-success", &format!("matrix f64 of {n} taxa square={square} to_file(/dev/full)"), "Ok(())");
+                                }
+                            }
+                        }
+                    }
                     // writing to a FILE and reading it back is the same round trip; the file exists beforehand with longer content
                     for n in [1usize, 3, 6] {
                         let taxa: Vec<String> = (0..n).map(|i| format!("s{i}")).collect();
